@@ -66,6 +66,8 @@ TOL = 1e-9
 
 def regenerate(ctx: Ctx) -> None:
     ctx.gen_status.update(neb_tr.regenerate())
+    from translate import transcripts as _tr
+    ctx.gen_status.update(_tr.constructor_wiring(['NudgedElasticBand']))
 
 
 # ----------------------------------------------------------------------------- helpers
